@@ -2484,6 +2484,12 @@ SDIgetcoordvar(NC     *handle, /* IN: file handle */
                     (*dp)->var_type == UNKNOWN) {
                     /* see if we need to change the number type */
                     if ((nt != 0) && (nt != (*dp)->type)) {
+                        /* values that have been written cannot be given a wider
+                           number type (their data element cannot grow): refuse
+                           before anything about the variable is changed */
+                        if ((*dp)->data_ref != 0 && (nt != (*dp)->HDFtype) && DFKNTsize(nt) > (*dp)->HDFsize)
+                            HGOTO_ERROR(DFE_ARGS, FAIL);
+
                         if (((*dp)->type = hdf_unmap_type((int)nt)) == FAIL) {
                             HGOTO_ERROR(DFE_INTERNAL, FAIL);
                         }
